@@ -1214,11 +1214,14 @@ type Reference struct {
 
 func (r Reference) ObjValue() Object {
 	if log.LogDebug() {
-		log.Debugf("Reference Value() %s -> %s", r.Name, r.RefEnv.store[r.Name].Inspect())
+		log.Debugf("Reference Value() %s -> %v", r.Name, r.RefEnv.store[r.Name])
 	}
 	v := r.RefEnv.store[r.Name]
 	if v == r {
 		panic("Self reference")
+	}
+	if v == nil {
+		return NULL // the variable was deleted since the reference was made.
 	}
 	return v
 }
